@@ -47,6 +47,7 @@ type chainsim struct {
 	sendAt        time.Duration
 	polls         []c15poll
 	pollErr       map[int]bool
+	pollErrKind   map[int]int // 0 opaque error, 1 wraps context.DeadlineExceeded (backend's own timeout), 2 context.Canceled
 	maxLatency    time.Duration
 }
 
@@ -91,6 +92,13 @@ func (c *chainsim) GetSeqno(ctx context.Context, account ton.AccountID) (uint32,
 	if c.pollErr[i] {
 		c.polls = append(c.polls, c15poll{at: c.w.Now(), err: true})
 		c.w.Probe("poll-error-injected")
+		switch c.pollErrKind[i] {
+		case 1:
+			// the backend's own per-request timeout; the caller's context is alive
+			return 0, fmt.Errorf("chainsim: lite server request: %w", context.DeadlineExceeded)
+		case 2:
+			return 0, context.Canceled
+		}
 		return 0, errors.New("chainsim: injected GetSeqno error")
 	}
 	v := c.curSeqno()
@@ -338,7 +346,7 @@ func genC15(seed uint64, index int, tier string) *run.Plan {
 	if g.Intn(3) == 0 {
 		n := 1 + g.Intn(4)
 		for i := 0; i < n; i++ {
-			p.Faults = append(p.Faults, run.Fault{Kind: "poll-err", A: g.Intn(12)})
+			p.Faults = append(p.Faults, run.Fault{Kind: "poll-err", A: g.Intn(12), B: g.Intn(3)})
 		}
 	}
 	if g.Intn(10) == 0 {
@@ -360,7 +368,7 @@ func execC15(t *testing.T, w *core.World, p *run.Plan, r *run.Result) {
 
 	// ---------- address half (A1-A3): input sampling that every simulated send needs anyway ----------
 	want := id.address()
-	chain := &chainsim{w: w, p: p, pollErr: map[int]bool{}, includeAt: -1}
+	chain := &chainsim{w: w, p: p, pollErr: map[int]bool{}, pollErrKind: map[int]int{}, includeAt: -1}
 	var wl wallet.Wallet
 	var newErr error
 	func() {
@@ -464,6 +472,7 @@ func execC15(t *testing.T, w *core.World, p *run.Plan, r *run.Result) {
 		switch f.Kind {
 		case "poll-err":
 			chain.pollErr[f.A] = true
+			chain.pollErrKind[f.A] = f.B
 		case "poll-err-all":
 			for i := 0; i < 64; i++ {
 				chain.pollErr[i] = true
@@ -699,6 +708,11 @@ func execC15(t *testing.T, w *core.World, p *run.Plan, r *run.Result) {
 	// return of SendMessage); an advance within the first half of the window so measured must be seen.
 	if advancedAt >= 0 && advancedAt-chain.stateAnswerAt <= W/2 && !errAfterAdvance && out.err != nil {
 		w.Violate("C15.O3", cls("O3-missed"), fmt.Sprintf("seqno advanced %v after the state was read (window %v), no poll error afterwards, yet SendV2 returned %v (%d polls)", advancedAt-chain.stateAnswerAt, W, out.err, len(chain.polls)))
+	}
+	// O6: an error about the confirmation is only due once the window has elapsed (the window cannot start
+	// before the account state was read)
+	if out.err != nil && out.at < chain.stateAnswerAt+W {
+		w.Violate("C15.O6", cls("O6-early-error"), fmt.Sprintf("the message was accepted and the window is %v, but SendV2 gave up %v after the state was read: %v (%d polls)", W, out.at-chain.stateAnswerAt, out.err, len(chain.polls)))
 	}
 	if limit := t0 + chain.maxLatency*3 + W + W/2 + chain.maxLatency*time.Duration(len(chain.polls)); out.at > limit {
 		w.Violate("C15.O4", cls("O4-late"), fmt.Sprintf("SendV2 returned at %v, later than %v", out.at, limit))
